@@ -39,9 +39,29 @@ bool io::queue::prepare(size_t len = 1)
 {
 	return (!len || mpt_queue_prepare(&_d, len)) ? true : false;
 }
+// data may lie in the own storage: content moves when the queue grows
+static bool queue_content(const ::mpt::queue &d, const void *data, size_t &pos)
+{
+	const uint8_t *base = static_cast<const uint8_t *>(d.base);
+	const uint8_t *ptr = static_cast<const uint8_t *>(data);
+	if (!ptr || !base || ptr < base || ptr >= base + d.max) {
+		return false;
+	}
+	size_t at = ptr - base;
+	pos = (at >= d.off) ? at - d.off : at + (d.max - d.off);
+	return pos < d.len;
+}
+static const void *queue_address(const ::mpt::queue &d, size_t pos)
+{
+	size_t low = d.max - d.off;
+	return static_cast<const uint8_t *>(d.base) + ((pos < low) ? d.off + pos : pos - low);
+}
 bool io::queue::push(const void *data, size_t len = 1)
 {
+	size_t pos;
+	bool own = queue_content(_d, data, pos);
 	mpt_queue_prepare(&_d, len);
+	if (own) data = queue_address(_d, pos);
 	return mpt_qpush(&_d, len, data) >= 0;
 }
 bool io::queue::pop(void *data = 0, size_t len = 1)
@@ -53,7 +73,10 @@ bool io::queue::pop(void *data = 0, size_t len = 1)
 }
 bool io::queue::unshift(const void *data = 0, size_t len = 1)
 {
+	size_t pos;
+	bool own = queue_content(_d, data, pos);
 	mpt_queue_prepare(&_d, len);
+	if (own) data = queue_address(_d, pos);
 	return mpt_qunshift(&_d, len, data) >= 0;
 }
 bool io::queue::shift(void *data = 0, size_t len = 1)
@@ -70,9 +93,12 @@ ssize_t io::queue::write(size_t len, const void *d, size_t part)
 	if (!part) {
 		return prepare(len) ? len : -1;
 	}
+	size_t pos;
+	bool own = queue_content(_d, d, pos);
 	if (!prepare(part*len)) {
 		prepare(part);
 	}
+	if (own) d = queue_address(_d, pos);
 	while (done < len) {
 		if (mpt_qpush(&_d, part, d) < 0) {
 			return done;
